@@ -72,7 +72,7 @@ struct GridFn : public DensityFunction {
 
 static const int NEST = 5; // J_H, J_He, J_last, heat_H, heat_He
 struct Outcome {
-  int status = 0; // 0 absorbed, 1 escaped, 2 hand-over cap reached, 3 abort, 4 bad subgrid index
+  int status = 0; // 0 absorbed, 1 escaped, 2 hand-over cap reached, 3 abort, 4 bad subgrid index, 5 interact did not return
   double end[3] = {0, 0, 0};
   double tau_left = 0;
   int handovers = 0;
@@ -126,7 +126,7 @@ struct Tracer {
       bool ab;
       GUARDED(ab, out = grid.interact(ph, indir));
       if (ab || out < 0 || out >= 27) {
-        o.status = 3;
+        o.status = (ab && t_guard_rc == 2) ? 5 : 3;
         break;
       }
       if (out == TRAVELDIRECTION_INSIDE) {
@@ -178,7 +178,7 @@ struct Tracer {
 
 struct TStats {
   uint64_t ev = 0, nontrivial = 0, packets = 0, skipped_unbounded = 0, skipped_tie = 0, skipped_wallparallel = 0;
-  uint64_t absorbed = 0, escaped = 0, max_handovers = 0, wraps = 0, handovers = 0;
+  uint64_t absorbed = 0, escaped = 0, max_handovers = 0, wraps = 0, handovers = 0, negzero = 0;
   double worst_split = 0, worst_ref = 0;
   void merge(const TStats &o) {
     ev += o.ev;
@@ -190,6 +190,7 @@ struct TStats {
     absorbed += o.absorbed;
     escaped += o.escaped;
     handovers += o.handovers;
+    negzero += o.negzero;
     wraps += o.wraps;
     max_handovers = std::max(max_handovers, o.max_handovers);
     worst_split = std::max(worst_split, o.worst_split);
@@ -279,9 +280,10 @@ static void exact_reference(const Geom &G, int N, int field, int per, const int 
     E.tie = true;
 }
 
+static thread_local const char *t_zero_sign_txt = "";
 static std::string t_text(const TraceCfg &c, const int ns[3], const int h[3], const int d[3], double target) {
-  return fmt("%d^3 cells (%s) field=%s periodic=(%d,%d,%d) layout %dx%dx%d start half-cell index (%d,%d,%d) dir=(%d,%d,%d)/norm target=%a",
-             c.N, GEOMS[c.g].name, T_FIELDS[c.field], c.per & 1, (c.per >> 1) & 1, (c.per >> 2) & 1, ns[0], ns[1], ns[2], h[0], h[1], h[2], d[0], d[1], d[2], target);
+  return fmt("%d^3 cells (%s) field=%s periodic=(%d,%d,%d) layout %dx%dx%d start half-cell index (%d,%d,%d) dir=(%d,%d,%d)/norm%s target=%a",
+             c.N, GEOMS[c.g].name, T_FIELDS[c.field], c.per & 1, (c.per >> 1) & 1, (c.per >> 2) & 1, ns[0], ns[1], ns[2], h[0], h[1], h[2], d[0], d[1], d[2], t_zero_sign_txt, target);
 }
 static std::string t_replay(const TraceCfg &c, const int ns[3], const int h[3], const int d[3], int tk) {
   return fmt("{\"what\": \"tracing\", \"g\": %d, \"N\": %d, \"field\": %d, \"per\": %d, \"ns\": [%d, %d, %d], \"h\": [%d, %d, %d], \"d\": [%d, %d, %d], \"tk\": %d}",
@@ -361,9 +363,26 @@ struct TraceRunner {
     double p0[3], dir[3];
     const double nrmd = std::sqrt((double)(d[0] * d[0] + d[1] * d[1] + d[2] * d[2]));
     bool wallpar = false;
+    // sign bit of zero direction components (a zero component contributes no
+    // motion whatever its sign; real callers produce -0.0): pattern chosen by the
+    // start point and target so that every axis sees +0.0 and -0.0
+    const int zpat = (h[0] + 2 * h[1] + 3 * h[2] + tk) & 3; // 0: all +0, 1: all -0, 2: first zero axis -0, 3: last zero axis -0
+    static const char *ZTXT[4] = {"", " (zero components handed over as -0.0)", " (first zero component handed over as -0.0)", " (last zero component handed over as -0.0)"};
+    int firstz = -1, lastz = -1;
+    for (int k = 0; k < 3; ++k)
+      if (d[k] == 0) {
+        if (firstz < 0)
+          firstz = k;
+        lastz = k;
+      }
+    t_zero_sign_txt = firstz >= 0 ? ZTXT[zpat] : "";
     for (int k = 0; k < 3; ++k) {
       p0[k] = G.anchor[k] + (0.5 * h[k]) * G.cs[k];
       dir[k] = d[k] / nrmd;
+      if (d[k] == 0 && (zpat == 1 || (zpat == 2 && k == firstz) || (zpat == 3 && k == lastz))) {
+        dir[k] = -0.;
+        ++st.negzero;
+      }
       if (!G.exact && d[k] == 0 && h[k] % 2 == 0)
         wallpar = true;
     }
@@ -407,7 +426,7 @@ struct TraceRunner {
         printf("   VIOLATION %s: %s\n", what, detail.c_str());
     };
     if (oref.status >= 2)
-      vref(oref.status == 2 ? "no-termination" : (oref.status == 3 ? "abort" : "bad-subgrid"), fmt("trace ended with status %d after %d hand-overs", oref.status, oref.handovers));
+      vref((oref.status == 2 || oref.status == 5) ? "no-termination" : (oref.status == 3 ? "abort" : "bad-subgrid"), fmt("trace ended with status %d after %d hand-overs", oref.status, oref.handovers));
     else if (E.tie)
       ++st.skipped_tie;
     else {
@@ -425,20 +444,20 @@ struct TraceRunner {
             continue;
           const LD lH = (LD)ref.est[c] / ((LD)T_W * (LD)T_SIGH);
           st.worst_ref = std::max(st.worst_ref, (double)(fabsl(lH - want[c]) / tollen));
-          if (fabsl(lH - want[c]) > tollen)
+          if (!(fabsl(lH - want[c]) <= tollen))
             vref("percell-path", fmt("cell %d: estimator/(w*sigma) = %.17Lg, exact accumulated path = %.17Lg", c, lH, want[c]));
           const LD exHe = (LD)T_W * (LD)T_SIGHE * want[c] * ((LD)T_E - 5.948e15L);
-          if (ref_ok && fabsl((LD)ref.est[(size_t)4 * ref.ncell + c] - exHe) > 1e-11L * fabsl(exHe) + fabsl((LD)T_E) * T_W * T_SIGHE * tollen)
+          if (ref_ok && !(fabsl((LD)ref.est[(size_t)4 * ref.ncell + c] - exHe) <= 1e-11L * fabsl(exHe) + fabsl((LD)T_E) * T_W * T_SIGHE * tollen))
             vref("heating", fmt("cell %d: He heating %.17g, expected %.17Lg", c, ref.est[(size_t)4 * ref.ncell + c], exHe));
         }
         for (int k = 0; k < 3 && ref_ok; ++k) {
           const LD e = (LD)oref.end[k] - (LD)G.anchor[k];
-          if (pdist(k, e, E.end[k]) > 1e-12L * mag * (1 + oref.handovers))
+          if (!(pdist(k, e, E.end[k]) <= 1e-12L * mag * (1 + oref.handovers)))
             vref(oref.status == 0 ? "absorption-position" : "exit-position", fmt("axis %d: end coordinate %.17Lg (relative to the box), exact %.17Lg (unfolded)", k, e, E.end[k]));
         }
         if (ref_ok && oref.status == 1) {
           const LD wantleft = (LD)target - E.tau_total;
-          if (fabsl((LD)oref.tau_left - wantleft) > 1e-12L * (LD)target * (1 + oref.handovers) + geom_tau(oref.handovers))
+          if (!(fabsl((LD)oref.tau_left - wantleft) <= 1e-12L * (LD)target * (1 + oref.handovers) + geom_tau(oref.handovers)))
             vref("remaining-tau", fmt("remaining depth %.17g, exact %.17Lg", oref.tau_left, wantleft));
         }
       }
@@ -471,15 +490,15 @@ struct TraceRunner {
         if (verbose)
           printf(" layout %dx%dx%d: status=%d end=(%.17g,%.17g,%.17g) tau_left=%.17g handovers=%d cells=%zu\n", L.ns[0], L.ns[1], L.ns[2], o.status, o.end[0], o.end[1], o.end[2], o.tau_left, o.handovers, o.touched.size());
         if (o.status >= 2)
-          vio(o.status == 2 ? "no-termination" : (o.status == 3 ? "abort" : "bad-subgrid"), fmt("trace ended with status %d after %d hand-overs (single block: %s)", o.status, o.handovers, oref.status == 0 ? "absorbed" : "escaped"));
+          vio((o.status == 2 || o.status == 5) ? "no-termination" : (o.status == 3 ? "abort" : "bad-subgrid"), fmt("trace ended with status %d after %d hand-overs (single block: %s)", o.status, o.handovers, oref.status == 0 ? "absorbed" : "escaped"));
         else if (o.status != oref.status) {
           if (!E.tie)
             vio("decision", fmt("split grid: %s at (%.17g,%.17g,%.17g), single block: %s at (%.17g,%.17g,%.17g)", o.status == 0 ? "absorbed" : "escaped", o.end[0], o.end[1], o.end[2], oref.status == 0 ? "absorbed" : "escaped", oref.end[0], oref.end[1], oref.end[2]));
         } else if (!E.tie) {
           for (int k = 0; k < 3 && ok; ++k)
-            if (pdist(k, (LD)o.end[k], (LD)oref.end[k]) > 1e-12L * mag * (1 + oref.handovers))
+            if (!(pdist(k, (LD)o.end[k], (LD)oref.end[k]) <= 1e-12L * mag * (1 + oref.handovers)))
               vio(o.status == 0 ? "absorption-position" : "exit-position", fmt("axis %d: %.17g vs single block %.17g", k, o.end[k], oref.end[k]));
-          if (ok && o.status == 1 && std::fabs(o.tau_left - oref.tau_left) > 1e-12 * target * (1 + oref.handovers) + 2 * (double)geom_tau(oref.handovers))
+          if (ok && o.status == 1 && !(std::fabs(o.tau_left - oref.tau_left) <= 1e-12 * target * (1 + oref.handovers) + 2 * (double)geom_tau(oref.handovers)))
             vio("remaining-tau", fmt("%.17g vs single block %.17g", o.tau_left, oref.tau_left));
           // per cell estimators over the union of touched cells
           for (int pass = 0; pass < 2 && ok; ++pass) {
@@ -490,7 +509,7 @@ struct TraceRunner {
                 const double scale = k < 3 ? T_W * t_sigma(k == 0 ? ION_H_n : (k == 1 ? ION_He_n : NUMBER_OF_IONNAMES - 1)) : T_W * (k == 3 ? T_SIGH : T_SIGHE) * T_E;
                 const double tol = 1e-12 * (std::fabs(b) + scale * (double)mag * (1 + oref.handovers));
                 st.worst_split = std::max(st.worst_split, std::fabs(a - b) / tol);
-                if (std::fabs(a - b) > tol)
+                if (!(std::fabs(a - b) <= tol))
                   vio("percell-estimator", fmt("global cell %d estimator %d: split grid %.17g, single block %.17g", c, k, a, b));
               }
               if (!ok)
@@ -555,7 +574,7 @@ static void run_tracing(Result &R, const Args &A) {
         for (int hy = 0; hy < nh; ++hy) {
           if (cut)
             continue;
-          if (R.violation_count > 20000)
+          if (R.violation_count > 20000 || hg::g_hangs.load() > 30)
             cut = cut_viol = true;
           if (R.out_of_time())
             cut = true;
@@ -579,7 +598,7 @@ static void run_tracing(Result &R, const Args &A) {
       ++done_cfg;
   }
   if (cut_viol)
-    R.cap(fmt("tracing stopped after more than 20000 violations: %zu of %zu configurations completed", done_cfg, cfgs.size()));
+    R.cap(fmt("tracing stopped after more than 20000 violations or 30 calls that did not return: %zu of %zu configurations completed", done_cfg, cfgs.size()));
   else if (cut)
     R.hit_deadline(fmt("tracing: %zu of %zu (geometry, grid, field, periodicity) configurations completed", done_cfg, cfgs.size()));
   R.evaluations += total.ev;
@@ -591,6 +610,7 @@ static void run_tracing(Result &R, const Args &A) {
   R.set("tracing_configurations", (double)cfgs.size());
   R.set("tracing_layouts_per_configuration_sum", (double)nlayout_runs);
   R.set("tracing_packets", (double)total.packets);
+  R.set("tracing_negative_zero_direction_components", (double)total.negzero);
   R.set("tracing_packets_absorbed", (double)total.absorbed);
   R.set("tracing_packets_escaped", (double)total.escaped);
   R.set("tracing_handovers_split", (double)total.handovers);
